@@ -764,6 +764,7 @@ Whole(f) ==
   CASE f = "off" ->
          <<<<"+00:00", "">>, <<"-00:00", "">>, <<"+05:30", "">>, <<"-12:45", "">>, <<"+0530", "">>, <<"-05", "">>, <<"+23:59", "">>, <<"-2359", "">>,
            <<"+05:30:15", "">>, <<"+053015", "">>, <<"+05:30:00", "">>, <<"-00:00:00.5", "">>,
+           <<"+05:30:15.123456789", "">>, <<"-053015,000000001", "">>, <<"+01:30:15.12345678", "">>, <<"+00:00:00,999999999", "">>,
            <<"+05:", "offset-minute">>, <<"+05:30:", "offset-second">>, <<"+05:3012", "offset-separator-mixing">>, <<"+0530:12", "offset-separator-mixing">>,
            <<"+05301", "offset-second">>, <<"+053099", "offset-second">>, <<"+05:30:60", "offset-second">>, <<"05:30", "offset-sign">>, <<"+5", "offset-hour">>, <<"+24:00", "offset-hour">>,
            <<"+05:60", "offset-minute">>, <<"+05:30x", "offset-trailing-junk">>, <<"+05:30 ", "offset-trailing-junk">>, <<" +05:30", "offset-sign">>, <<"+", "offset-hour">>, <<"", "offset-sign">>,
